@@ -11,6 +11,25 @@ BASE_NOTE = ("Trusted base: rustc front end/MIR construction as dumped by engine
              "crates assumed total. ")
 
 CLAIMS = {
+    "C04": dict(
+        category="other",
+        technique="micro-CFG analysis of where the interrupt inputs influence sequencing + symbolic register-transfer evaluation of every interrupted micro-path + abstract interpretation of the flip-flop's writers, of the enable gate and of one clock edge per control word",
+        text=("(1) Exhaustively over the reachable control states (micro-address x IR) the IE flag / pending flip-flop / level input "
+              "influence the next micro-address only where the not-taken successor is an instruction-fetch word. (2) For every "
+              "instruction form and every micro-path on which the branch is taken, symbolic evaluation shows the instruction's own "
+              "effect complete (equal to the reference semantics without the following fetch) and then: FR pushed, address of the "
+              "next instruction pushed, IE cleared with C/Z/N kept, continuation at address 2, R0-R2 untouched. (3) One clock edge "
+              "of every control word, abstractly interpreted from flip-flop set and clear: words that test the interrupt leave it "
+              "clear, all others keep it, skipped edges (halt, memory wait) keep it, the level input stays clear. (4) The only "
+              "writers of the flip-flop are the trigger, reset, constructor and two pipeline stages; the trigger sets it exactly "
+              "under MICR bit 0 and never clears it; the bus raises no interrupts; MICR is written only by Bus::write and resets. "
+              "(5) RETI pops PC then FR. The data-path model is tied to the pipeline code as in C01."),
+        note=("Equality of the final state of an interrupted run with the uninterrupted run is a statement about executions and is "
+              "not decided as such; decided are the structural conditions it rests on. EI, DI and RETI never test the interrupt "
+              "inputs (a pending interrupt waits one more instruction), MUL/DIV test them only at their delivering word. A key "
+              "press that arrives while a DI is executing is discarded at the next boundary (flip-flop cleared with IE clear): "
+              "the property speaks only about triggers while enabled. MISR status bits are not decided."),
+        design="3/C04"),
     "C01": dict(
         category="other",
         technique="symbolic register-transfer evaluation of every micro-path of the control store (expression trees, NOR networks by truth table) compared structurally with a reference ISA semantics; the evaluator's data-path model is checked against the MIR of the clock-edge pipeline by abstract interpretation with opaque register tags",
